@@ -33,8 +33,16 @@ fn token_value(neg: bool, mag: Option<u128>) -> Option<i64> {
 }
 
 #[derive(Clone, Copy, Debug, PartialEq, Eq)]
-enum Cx { Bare, Imm5, Off6, Pc9Ld, Pc9Br, Pc11, Trap8, Orig, Blkw, Fill }
+enum Cx { Bare, Imm5, Off6, Pc9Ld, Pc9Br, Pc11, Trap8, Orig, Blkw, Fill, Mn(u8) }
 const CXS: [Cx; 10] = [Cx::Bare, Cx::Imm5, Cx::Off6, Cx::Pc9Ld, Cx::Pc9Br, Cx::Pc11, Cx::Trap8, Cx::Orig, Cx::Blkw, Cx::Fill];
+/// every other mnemonic with a numeric operand field (the ten contexts above use one representative per field): (template, field bits)
+impl Cx {
+    fn idx(self) -> u64 { match self { Cx::Mn(k) => 10 + k as u64, other => CXS.iter().position(|c| *c == other).unwrap() as u64 } }
+    fn from_idx(i: usize) -> Option<Cx> { if i < 10 { Some(CXS[i]) } else if i < 10 + MNEMONICS.len() { Some(Cx::Mn((i - 10) as u8)) } else { None } }
+}
+fn all_cx() -> Vec<Cx> { (0..10 + MNEMONICS.len()).filter_map(Cx::from_idx).collect() }
+const MNEMONICS: [(&str, u32); 18] = [("AND R1, R2, {}", 5), ("STR R1, R2, {}", 6), ("ST R1, {}", 9), ("LDI R1, {}", 9), ("STI R1, {}", 9), ("LEA R1, {}", 9), ("NOP {}", 9),
+    ("BR {}", 9), ("BRn {}", 9), ("BRz {}", 9), ("BRp {}", 9), ("BRnp {}", 9), ("BRzp {}", 9), ("BRnzp {}", 9), ("brNZ {}", 9), ("add r1, r2, {}", 5), ("ldr r1, r2, {}", 6), ("jsr {}", 11)];
 
 fn fits_signed(v: i64, n: u32) -> bool { v >= -(1i64 << (n - 1)) && v < (1i64 << (n - 1)) }
 fn fits_unsigned(v: i64, n: u32) -> bool { v >= 0 && v < (1i64 << n) }
@@ -51,6 +59,7 @@ fn expected(cx: Cx, tv: Option<i64>) -> Option<i64> {
         Cx::Trap8 => fits_unsigned(v, 8),
         Cx::Orig => fits_unsigned(v, 16),
         Cx::Blkw => fits_unsigned(v, 16) && v != 0,
+        Cx::Mn(k) => fits_signed(v, MNEMONICS[k as usize].1),
     };
     if !ok { return None; }
     Some(if cx == Cx::Fill { v.rem_euclid(65536) } else { v })
@@ -80,13 +89,14 @@ fn observe(cx: Cx, tok: &str) -> Result<Option<i64>, String> {
         Cx::Orig => format!(".orig {tok}"),
         Cx::Blkw => format!(".blkw {tok}"),
         Cx::Fill => format!(".fill {tok}"),
+        Cx::Mn(k) => MNEMONICS[k as usize].0.replace("{}", tok),
     };
     let ast = match parse_ast(&src) { Ok(a) => a, Err(_) => return Ok(None) };
     if ast.len() != 1 { return Err(format!("`{src}` parsed into {} statements", ast.len())); }
     let v = match &ast[0].nucleus {
-        StmtKind::Instr(AsmInstr::ADD(_, _, ImmOrReg::Imm(i))) => i.get() as i64,
-        StmtKind::Instr(AsmInstr::LDR(_, _, o)) => o.get() as i64,
-        StmtKind::Instr(AsmInstr::LD(_, PCOffset::Offset(o))) => o.get() as i64,
+        StmtKind::Instr(AsmInstr::ADD(_, _, ImmOrReg::Imm(i)) | AsmInstr::AND(_, _, ImmOrReg::Imm(i))) => i.get() as i64,
+        StmtKind::Instr(AsmInstr::LDR(_, _, o) | AsmInstr::STR(_, _, o)) => o.get() as i64,
+        StmtKind::Instr(AsmInstr::LD(_, PCOffset::Offset(o)) | AsmInstr::ST(_, PCOffset::Offset(o)) | AsmInstr::LDI(_, PCOffset::Offset(o)) | AsmInstr::STI(_, PCOffset::Offset(o)) | AsmInstr::LEA(_, PCOffset::Offset(o)) | AsmInstr::NOP(PCOffset::Offset(o))) => o.get() as i64,
         StmtKind::Instr(AsmInstr::BR(_, PCOffset::Offset(o))) => o.get() as i64,
         StmtKind::Instr(AsmInstr::JSR(PCOffset::Offset(o))) => o.get() as i64,
         StmtKind::Instr(AsmInstr::TRAP(v)) => v.get() as i64,
@@ -150,7 +160,7 @@ fn magnitudes(ctx: &Ctx) -> Vec<u128> {
 }
 
 pub fn run(ctx: &Ctx) -> Report {
-    let mut rep = Report::new("every magnitude in the window (thorough: 0..=300000, i.e. values -150000..=300000; quick: +-300 around every boundary) plus 10^k+-1 (k<=38), 2^k+-1 (k<=126) and 40-digit literals x notation {n,#n,xH,XH} x sign x 0-3 leading zeros x 10 contexts; registers R/r x 0..999 x 0-12 leading zeros; non-trivial = magnitude within 1 of a field or token boundary");
+    let mut rep = Report::new("every magnitude in the window (thorough: 0..=300000, i.e. values -150000..=300000; quick: +-300 around every boundary) plus 10^k+-1 (k<=38), 2^k+-1 (k<=126) and 40-digit literals x notation {n,#n,xH,XH} x sign x 0-3 leading zeros x 28 contexts (bare token, one representative per field kind, and every other mnemonic with a numeric field incl. NOP, all BR variants and lower-case spellings); registers R/r x 0..999 x 0-12 leading zeros; non-trivial = magnitude within 1 of a field or token boundary");
     let mags = magnitudes(ctx);
     let bounds: Vec<u128> = { let mut b = vec![0u128]; for n in 1..=16 { b.push(1 << n); b.push(1 << (n - 1)); } b };
     let n = mags.len() as u64;
@@ -160,22 +170,22 @@ pub fn run(ctx: &Ctx) -> Report {
         let near = bounds.iter().any(|b| (*b as i128 - m as i128).abs() <= 1);
         for neg in [false, true] {
             if neg && m > 150000 && m < (1u128 << 19) { continue; }
-            for form in FORMS { for zeros in 0..4usize { for cx in CXS {
+            for form in FORMS { for zeros in 0..4usize { for cx in all_cx() {
                 acc.evals += 1; acc.transitions += 1;
                 if near { acc.nontrivial += 1; }
                 let res = check_num(cx, form, neg, &dec, &hexs, Some(m), zeros);
-                acc.outcomes.insert(mix(cx as u64, expected(cx, token_value(neg, Some(m))).is_some() as u64 * 2 + neg as u64));
-                if let Some((sig, d)) = res { acc.violation(sig, format!("n:{}:{}:{}:{m}:{zeros}", cx as u8, form as u8, neg as u8), d); }
+                acc.outcomes.insert(mix(cx.idx(), expected(cx, token_value(neg, Some(m))).is_some() as u64 * 2 + neg as u64));
+                if let Some((sig, d)) = res { acc.violation(sig, format!("n:{}:{}:{}:{m}:{zeros}", cx.idx(), form as u8, neg as u8), d); }
             } } }
         }
-        acc.sample(i, ctx.seed, 5003, || format!("magnitude {m}: tokens {} {} in all 10 contexts", render(Form::HashDec, true, &dec, &hexs, 1), render(Form::HexUp, false, &dec, &hexs, 0)));
+        acc.sample(i, ctx.seed, 5003, || format!("magnitude {m}: tokens {} {} in all 28 contexts", render(Form::HashDec, true, &dec, &hexs, 1), render(Form::HexUp, false, &dec, &hexs, 0)));
     });
     rep.absorb(r);
     // a literal beyond u128: 40 digits
-    for form in FORMS { for neg in [false, true] { for cx in CXS {
+    for form in FORMS { for neg in [false, true] { for cx in all_cx() {
         let dec = "9".repeat(40); let hexs = "f".repeat(40);
         rep.acc.evals += 1; rep.acc.transitions += 1;
-        if let Some((sig, d)) = check_num(cx, form, neg, &dec, &hexs, None, 0) { rep.acc.violation(sig, format!("h:{}:{}:{}", cx as u8, form as u8, neg as u8), d); }
+        if let Some((sig, d)) = check_num(cx, form, neg, &dec, &hexs, None, 0) { rep.acc.violation(sig, format!("h:{}:{}:{}", cx.idx(), form as u8, neg as u8), d); }
     } } }
     // registers
     let r = sweep(ctx, 2 * 1000 * 13, 512, |i, acc| {
@@ -195,12 +205,12 @@ pub fn replay(case: &str) -> Option<String> {
     let p: Vec<&str> = case.split(':').collect();
     match *p.first()? {
         "n" => {
-            let cx = CXS[p.get(1)?.parse::<usize>().ok()?]; let form = FORMS[p.get(2)?.parse::<usize>().ok()?];
+            let cx = Cx::from_idx(p.get(1)?.parse::<usize>().ok()?)?; let form = FORMS[p.get(2)?.parse::<usize>().ok()?];
             let neg = *p.get(3)? == "1"; let m: u128 = p.get(4)?.parse().ok()?; let z: usize = p.get(5)?.parse().ok()?;
             check_num(cx, form, neg, &m.to_string(), &format!("{m:x}"), Some(m), z).map(|x| x.1)
         }
         "h" => {
-            let cx = CXS[p.get(1)?.parse::<usize>().ok()?]; let form = FORMS[p.get(2)?.parse::<usize>().ok()?];
+            let cx = Cx::from_idx(p.get(1)?.parse::<usize>().ok()?)?; let form = FORMS[p.get(2)?.parse::<usize>().ok()?];
             check_num(cx, form, *p.get(3)? == "1", &"9".repeat(40), &"f".repeat(40), None, 0).map(|x| x.1)
         }
         "r" => check_reg(*p.get(1)? == "1", p.get(2)?).map(|x| x.1),
